@@ -347,6 +347,7 @@ def explore(ctx, exe_san, exe, variant, cov, dist):
     distinct = set()
     pending = []
     newcount = [0]
+    sites_seen = set()
 
     def is_known(sig):
         return any(f["property"] == ctx.prop and f.get("status") == "open" and re.fullmatch(f["signature"], sig)
@@ -377,6 +378,8 @@ def explore(ctx, exe_san, exe, variant, cov, dist):
                                        "trace": [l[3:] for l in b if l.startswith("ev ")]})
         for r in results:
             cov["evaluations"] += 1
+            if r.get("exe") == "sched_run":
+                sites_seen.update(r.get("sites") or [])
             st = (r["M"] or {}).get("status", "crash")
             dist["status"][st] = dist["status"].get(st, 0) + 1
             dist["connections_on_low_descriptors"] = dist.get("connections_on_low_descriptors", 0) + \
@@ -465,6 +468,8 @@ def explore(ctx, exe_san, exe, variant, cov, dist):
             c["budget"] = 40000
     run_chunked(rnd, "random fault vectors / schedules")
 
+    if newcount[0] == 0 and not ctx.broken:
+        cov["call_sites_of_dsh_c"] = sched.site_report(ctx, exe, sites_seen, "this check (plain build)")
     pending.sort(key=lambda t: (t[0], t[1]))
     seen = {}
     for _, _, sig, what, r in pending:
